@@ -393,7 +393,7 @@ func zzC04NewRig(tb testing.TB, dir string, gVals [4]bool, gSvcs []string) (r *z
 
 	df, err := filtering.New(conf, nil)
 	if err != nil {
-		tb.Fatalf("filtering.New: %v", err)
+		panic(fmt.Sprintf("filtering.New: %v", err))
 	}
 	df.SetEnabled(gVals[0])
 	r.df = df
@@ -406,7 +406,7 @@ func zzC04NewRig(tb testing.TB, dir string, gVals [4]bool, gSvcs []string) (r *z
 func (r *zzC04Rig) reset(tb testing.TB) {
 	r.dhcp = &zzC04DHCP{leases: map[netip.Addr]net.HardwareAddr{}}
 	if err := r.load(nil); err != nil {
-		tb.Fatalf("NewStorage: %v", err)
+		panic(fmt.Sprintf("NewStorage: %v", err))
 	}
 }
 
@@ -668,7 +668,7 @@ func (rn *zzC04Runner) step0(s []int) (out int, concrete string) {
 	case 1:
 		p, err := rn.build(a, mask, fl)
 		if err != nil {
-			rn.tb.Fatalf("SetIDs: %v", err)
+			panic(fmt.Sprintf("SetIDs: %v", err))
 		}
 		concrete = fmt.Sprintf("Add(%q %v own=%v bs=%v)", p.Name, p.IDs(), p.UseOwnSettings, p.UseOwnBlockedServices)
 		if err = rn.rig.st.Add(rn.rig.ctx, p); err != nil {
@@ -678,7 +678,7 @@ func (rn *zzC04Runner) step0(s []int) (out int, concrete string) {
 	case 2:
 		p, err := rn.build(b, mask, fl)
 		if err != nil {
-			rn.tb.Fatalf("SetIDs: %v", err)
+			panic(fmt.Sprintf("SetIDs: %v", err))
 		}
 		concrete = fmt.Sprintf("Update(%q, %q %v own=%v bs=%v)", rn.names[a-1], p.Name, p.IDs(), p.UseOwnSettings, p.UseOwnBlockedServices)
 		if err = rn.rig.st.Update(rn.rig.ctx, rn.names[a-1], p); err != nil {
@@ -704,11 +704,11 @@ func (rn *zzC04Runner) step0(s []int) (out int, concrete string) {
 		n := 1 << len(rn.uni.IDs)
 		p1, err := rn.build(a, mask%n, fl%4)
 		if err != nil {
-			rn.tb.Fatalf("SetIDs: %v", err)
+			panic(fmt.Sprintf("SetIDs: %v", err))
 		}
 		p2, err := rn.build(b, mask/n, fl/4)
 		if err != nil {
-			rn.tb.Fatalf("SetIDs: %v", err)
+			panic(fmt.Sprintf("SetIDs: %v", err))
 		}
 		concrete = fmt.Sprintf("NewStorage(InitialClients: %q %v, %q %v)", p1.Name, p1.IDs(), p2.Name, p2.IDs())
 		if err = rn.rig.load([]*Persistent{p1, p2}); err != nil {
@@ -716,14 +716,16 @@ func (rn *zzC04Runner) step0(s []int) (out int, concrete string) {
 			concrete += " -> " + err.Error()
 		}
 	default:
-		rn.tb.Fatalf("bad op %d", op)
+		panic(fmt.Sprintf("bad op %d", op))
 	}
 
 	return out, concrete
 }
 
-// jump rebuilds the registry described by key k in a fresh Storage.
-func (rn *zzC04Runner) jump(k []int) {
+// jump rebuilds the registry described by key k in a fresh Storage.  refused
+// describes a setup operation the code did not accept (the spec accepts all of
+// them: the clients of a reachable state do not clash).
+func (rn *zzC04Runner) jump(k []int) (refused string) {
 	rn.rig.reset(rn.tb)
 	n := len(rn.names)
 	for i := 0; i < n; i++ {
@@ -731,7 +733,7 @@ func (rn *zzC04Runner) jump(k []int) {
 			continue
 		}
 		if out, c := rn.step([]int{1, i + 1, 0, k[i] / 4, k[i] % 4}); out != 0 {
-			rn.tb.Fatalf("setup %s refused", c)
+			return "reply: got refusal, spec accepts: " + c
 		}
 	}
 	for j, m := range k[n:] {
@@ -739,6 +741,8 @@ func (rn *zzC04Runner) jump(k []int) {
 			rn.step([]int{4, j + 1, m, 0, 0})
 		}
 	}
+
+	return ""
 }
 
 func (rn *zzC04Runner) nameIdx(p *Persistent, ok bool) (i int) {
@@ -1006,7 +1010,17 @@ func TestZZVerifC04Replay(t *testing.T) {
 			defer wg.Done()
 			rigs := zzC04Rigs{}
 			for c := range jobs {
-				steps, look, bad := zzC04RunChunk(t, unis[c.U], states[c.U], c, dir, rigs)
+				var steps, look int
+				var bad *zzC04Bad
+				if pm := zzC04Try(func() { steps, look, bad = zzC04RunChunk(t, unis[c.U], states[c.U], c, dir, rigs) }); pm != "" {
+					// A failure of the harness itself: the summary will not
+					// add up and the check reports inconclusive.
+					wmu.Lock()
+					w.put(map[string]any{"t": "harness", "chunk": c.ID, "what": pm})
+					wmu.Unlock()
+
+					continue
+				}
 				wmu.Lock()
 				totalSteps += steps
 				totalLook += look
@@ -1038,10 +1052,13 @@ func zzC04RunChunk(tb testing.TB, uni *zzC04Uni, states []*zzC04State, c *zzC04C
 			What: what, Concrete: concrete, History: hist, Got: o, Want: want}
 	}
 
-	rn.jump(states[c.Start].K)
+	setup := fmt.Sprintf("adding the clients of state %v to an empty storage", states[c.Start].K)
+	if refused := rn.jump(states[c.Start].K); refused != "" {
+		return 0, rn.nLook, mk(-1, c.Start, nil, "after setup: "+refused, setup, nil, nil, states[c.Start])
+	}
 	o := rn.observe()
 	if d := zzC04Compare(o, states[c.Start]); d != "" {
-		return 0, rn.nLook, mk(-1, c.Start, nil, "after setup: "+d, fmt.Sprintf("adding the clients of state %v to an empty storage", states[c.Start].K), nil, o, states[c.Start])
+		return 0, rn.nLook, mk(-1, c.Start, nil, "after setup: "+d, setup, nil, o, states[c.Start])
 	}
 
 	cur := c.Start
